@@ -45,14 +45,26 @@ class AllocatorAwarePointer
 
     Impl impl_;
 
-    constexpr auto allocate() { return AllocatorTraits::allocate(get_allocator(), size()); }
-
     constexpr void deallocate() noexcept
     {
         if (get())
         {
             AllocatorTraits::deallocate(get_allocator(), get(), size());
         }
+    }
+
+    // own nothing while the new block is being allocated: if that throws there is no dangling pointer left behind
+    constexpr void release_memory() noexcept
+    {
+        deallocate();
+        get() = nullptr;
+        size() = {};
+    }
+
+    constexpr void allocate_memory(std::size_t new_size)
+    {
+        get() = AllocatorTraits::allocate(get_allocator(), new_size);
+        size() = new_size;
     }
 
     static constexpr auto allocate_if_not_zero(std::size_t size, Allocator allocator)
@@ -108,19 +120,17 @@ class AllocatorAwarePointer
             {
                 if (get_allocator() != other.get_allocator())
                 {
-                    deallocate();
+                    release_memory();
                     propagate_on_container_copy_assignment(other);
-                    size() = other.size();
-                    get() = allocate();
+                    allocate_memory(other.size());
                     return *this;
                 }
             }
             propagate_on_container_copy_assignment(other);
             if (size() < other.size() || !get())
             {
-                deallocate();
-                size() = other.size();
-                get() = allocate();
+                release_memory();
+                allocate_memory(other.size());
             }
         }
         return *this;
